@@ -35,6 +35,8 @@ func init() {
 			{Name: "custom right delimiter without its trim form (original defect)", File: "lex.go", Old: "\t\tl.rightDelim = rightDelim\n\t\tl.trimRightDelim = rightTrimMarker + rightDelim\n", New: "\t\tl.rightDelim = rightDelim\n", Rule: "C03.coupled"},
 			{Name: "trim form built from the default delimiter", File: "lex.go", Old: "\t\tl.trimRightDelim = rightTrimMarker + rightDelim\n", New: "\t\tl.trimRightDelim = rightTrimMarker + defaultRightDelim\n", Rule: "C03."},
 			{Name: "text nodes are space-trimmed", File: "constructors.go", Old: "Text: []byte(text)}", New: "Text: []byte(strings.TrimSpace(text))}", Rule: "C03.identity"},
+			{Name: "WithDelims forgets the right delimiter", File: "set.go", Old: "\t\ts.rightDelim = right\n", New: "\t\ts.rightDelim = left\n", Rule: "C03.delims"},
+			{Name: "WithCommentDelims overwrites the action delimiter", File: "set.go", Old: "\t\ts.leftComment = left\n", New: "\t\ts.leftDelim = left\n", Rule: "C03.delims"},
 			{Name: "CR no longer trimmed", File: "lex.go", Old: "return r == ' ' || r == '\\t' || r == '\\r' || r == '\\n'", New: "return r == ' ' || r == '\\t' || r == '\\n'", Rule: "C03.space"},
 			{Name: "form feed also trimmed", File: "lex.go", Old: "return r == ' ' || r == '\\t' || r == '\\r' || r == '\\n'", New: "return r == ' ' || r == '\\t' || r == '\\r' || r == '\\n' || r == '\\f'", Rule: "C03.space"},
 			{Name: "left trim uses unicode.IsSpace", File: "lex.go", Old: "return Pos(len(s) - len(strings.TrimLeftFunc(s, isSpace)))", New: "return Pos(len(s) - len(strings.TrimLeftFunc(s, unicode.IsSpace)))", Rule: "C03.space"},
@@ -366,23 +368,17 @@ func runC03(c *an.Ctx) {
 			if !ok {
 				return true
 			}
-			side := ""
-			switch an.CalleeName(finfo, tc) {
-			case "strings.TrimLeftFunc":
-				side = "left"
-			case "strings.TrimRightFunc":
-				side = "right"
-			default:
-				if strings.HasPrefix(an.CalleeName(finfo, tc), "strings.Trim") {
-					c.Bad("C03.space", f.Name+"/measure", tc.Pos(), nil, "%s measures a run to trim with %s, not with TrimLeftFunc/TrimRightFunc(·, isSpace): a different set of characters is trimmed", f.Name, an.Str(tc.Fun))
+			side, okPred, isTrim := trimSet(finfo, tc)
+			if side == "" {
+				if isTrim {
+					c.Bad("C03.space", f.Name+"/measure", tc.Pos(), nil, "%s measures a run to trim with %s, which does not trim one end by the set {space, tab, CR, LF}: a different set of characters is trimmed", f.Name, an.Str(tc.Fun))
 				}
 				return true
 			}
 			nMeasure[side]++
-			okPred := len(tc.Args) == 2 && an.Str(tc.Args[1]) == "isSpace"
 			okSame := len(tc.Args) == 2 && an.Norm(f, tc.Args[0]) == an.Norm(f, whole)
 			c.Check(okPred && okSame, "C03.space", f.Name+"/measure-"+side, b.Pos(), "the "+side+" white-space run is len(s) - len(Trim(s, isSpace))",
-				f.Name+" does not measure the "+side+" run as len(s) - len(strings.Trim…Func(s, isSpace)) over the same s: a different set of characters (or another string) is measured")
+				f.Name+" does not measure the "+side+" run as len(s) - len(strings.Trim…(s, white space)) over the same s: a different set of characters (or another string) is measured")
 			return true
 		})
 	}
@@ -431,13 +427,43 @@ func c03configured(c *an.Ctx) {
 		"(*jet.lexer).setDelimiters":        {"lexer.leftDelim", "lexer.rightDelim"},
 		"(*jet.lexer).setCommentDelimiters": {"lexer.leftComment", "lexer.rightComment"},
 	}
-	setFields := []string{"Set.leftDelim", "Set.rightDelim", "Set.leftComment", "Set.rightComment"}
-	want := map[string]string{"Set.leftDelim": "lexer.leftDelim", "Set.rightDelim": "lexer.rightDelim", "Set.leftComment": "lexer.leftComment", "Set.rightComment": "lexer.rightComment"}
+	// where a configured delimiter lives in the Set is read from the two options that configure it: the
+	// storage WithDelims/WithCommentDelims put their i-th parameter into (a field of the Set, or a field
+	// of a struct value stored in one) is what must reach the i-th parameter of the matching lexer setter
+	options := []struct {
+		fn      string
+		targets []string
+	}{{"WithDelims", setters["(*jet.lexer).setDelimiters"]}, {"WithCommentDelims", setters["(*jet.lexer).setCommentDelimiters"]}}
+	var setFields []string        // obligation names: Set.<lexer field>
+	want := map[string]string{}   // storage path in the Set → lexer field it configures
+	nameOf := map[string]string{} // storage path → obligation name
+	for _, o := range options {
+		g := c.Fn("C03.delims", o.fn)
+		if g == nil {
+			return
+		}
+		paths := c03storedPaths(p, g)
+		for i, target := range o.targets {
+			name := "Set." + strings.TrimPrefix(target, "lexer.")
+			setFields = append(setFields, name)
+			if paths[i] == "" {
+				c.Bad("C03.delims", o.fn+"/stores:"+name, g.Pos(), nil, "%s does not store its parameter %d in the Set it configures: the delimiter given by the caller is lost", o.fn, i)
+				continue
+			}
+			if prev, dup := want[paths[i]]; dup {
+				c.Bad("C03.delims", o.fn+"/stores:"+name, g.Pos(), nil, "%s stores its parameter %d in %s, which already holds the value for %s: one of the two configured delimiters is overwritten", o.fn, i, paths[i], prev)
+				continue
+			}
+			c.OK("C03.delims", o.fn+"/stores:"+name, g.Pos(), "parameter %d is stored in %s", i, paths[i])
+			want[paths[i]] = target
+			nameOf[paths[i]] = name
+		}
+	}
 	fieldExpr := map[string]ast.Expr{}
 	an.InspectOwn(f, func(n ast.Node) bool {
 		if sel, ok := n.(*ast.SelectorExpr); ok {
-			if k := p.FieldKey(info, sel); want[k] != "" && fieldExpr[k] == nil {
-				fieldExpr[k] = sel
+			if k := c03setPath(p, info, sel); want[k] != "" && fieldExpr[nameOf[k]] == nil {
+				fieldExpr[nameOf[k]] = sel
 			}
 		}
 		return true
@@ -451,8 +477,8 @@ func c03configured(c *an.Ctx) {
 			if targets, ok := setters[name]; ok {
 				for i, a := range call.Args {
 					if i < len(targets) {
-						if k := p.FieldKey(info, a); want[k] == targets[i] {
-							st.Set("cfg:"+k, "1")
+						if k := c03setPath(p, info, a); k != "" && want[k] == targets[i] {
+							st.Set("cfg:"+nameOf[k], "1")
 						}
 					}
 				}
@@ -532,6 +558,87 @@ func c03configured(c *an.Ctx) {
 			c.Check(ok, "C03.delims", g.Name+"/"+target, g.Pos(), "a non-empty parameter is stored into "+target, g.Name+" can return without storing its non-empty parameter "+fmt.Sprint(i)+" into "+target)
 		}
 	}
+}
+
+// c03setPath renders a chain of field selections that starts at a Set ("Set.leftDelim", "Set.delims.left").
+func c03setPath(p *an.Prog, info *types.Info, e ast.Expr) string {
+	var segs []string
+	for {
+		sel, ok := an.Unparen(e).(*ast.SelectorExpr)
+		if !ok {
+			return ""
+		}
+		fv := an.FieldOf(info, sel)
+		if fv == nil {
+			return ""
+		}
+		segs = append([]string{an.RoleOf(fv)}, segs...)
+		if p.FieldOwner(fv) == "Set" {
+			return "Set." + strings.Join(segs, ".")
+		}
+		e = sel.X
+	}
+}
+
+// c03storedPaths: for an option constructor (func(params) Option returning a literal that configures the
+// Set), the storage path in the Set its i-th parameter is assigned to — directly, or as a field of a
+// struct literal assigned to a Set field.
+func c03storedPaths(p *an.Prog, g *an.Fn) map[int]string {
+	info := g.Info()
+	out := map[int]string{}
+	paramIdx := func(e ast.Expr) int {
+		if id, ok := an.Unparen(e).(*ast.Ident); ok {
+			if i, isParam := an.IsParam(g, an.ObjOf(info, id)); isParam {
+				return i
+			}
+		}
+		return -1
+	}
+	ast.Inspect(g.Body, func(n ast.Node) bool {
+		as, ok := n.(*ast.AssignStmt)
+		if !ok || len(as.Lhs) != len(as.Rhs) || as.Tok != token.ASSIGN {
+			return true
+		}
+		for k, lhs := range as.Lhs {
+			base := c03setPath(p, info, lhs)
+			if base == "" {
+				continue
+			}
+			rhs := an.Unparen(as.Rhs[k])
+			if i := paramIdx(rhs); i >= 0 {
+				out[i] = base
+				continue
+			}
+			if u, ok := rhs.(*ast.UnaryExpr); ok && u.Op == token.AND {
+				rhs = an.Unparen(u.X)
+			}
+			cl, ok := rhs.(*ast.CompositeLit)
+			if !ok {
+				continue
+			}
+			st, _ := info.Types[cl].Type.Underlying().(*types.Struct)
+			if st == nil {
+				continue
+			}
+			for j, el := range cl.Elts {
+				var fv *types.Var
+				val := el
+				if kv, ok := el.(*ast.KeyValueExpr); ok {
+					if id, ok := kv.Key.(*ast.Ident); ok {
+						fv, _ = an.ObjOf(info, id).(*types.Var)
+					}
+					val = kv.Value
+				} else if j < st.NumFields() {
+					fv = st.Field(j)
+				}
+				if i := paramIdx(val); i >= 0 && fv != nil {
+					out[i] = base + "." + an.RoleOf(fv)
+				}
+			}
+		}
+		return true
+	})
+	return out
 }
 
 func caseClauseOf(fn *an.Fn, name string) *ast.CaseClause { return caseClause(fn, name) }
@@ -646,7 +753,41 @@ func c03lexText(c *an.Ctx, f *an.Fn, ign *ast.CallExpr) {
 }
 
 var trimCallRe = regexp.MustCompile(`^(left|right)TrimLength\((.+)\)$`)
-var trimInlineRe = regexp.MustCompile(`^Pos\(\(len\((.+)\) - len\(strings\.Trim(Left|Right)Func\((.+), isSpace\)\)\)\)$`)
+var trimInlineRe = regexp.MustCompile(`^Pos\(\(len\((.+)\) - len\(strings\.Trim(Left|Right)(?:Func)?\((.+), [^,()]+\)\)\)\)$`)
+
+// trimSet classifies a strings.Trim… call: the end it trims and whether the characters it removes are
+// exactly jet's white space — through the predicate isSpace (whose own set C03.space/isSpace decides) or
+// through a constant cutset with exactly these four characters.
+func trimSet(info *types.Info, tc *ast.CallExpr) (side string, okSet, isTrim bool) {
+	name := an.CalleeName(info, tc)
+	if !strings.HasPrefix(name, "strings.Trim") {
+		return "", false, false
+	}
+	if len(tc.Args) != 2 {
+		return "", false, true
+	}
+	switch name {
+	case "strings.TrimLeftFunc", "strings.TrimRightFunc":
+		side = strings.ToLower(strings.TrimSuffix(strings.TrimPrefix(name, "strings.Trim"), "Func"))
+		if id, ok := an.Unparen(tc.Args[1]).(*ast.Ident); ok {
+			if fn, ok := an.ObjOf(info, id).(*types.Func); ok && an.FuncName(fn) == "jet.isSpace" {
+				okSet = true
+			}
+		}
+	case "strings.TrimLeft", "strings.TrimRight":
+		side = strings.ToLower(strings.TrimPrefix(name, "strings.Trim"))
+		if tv, ok := info.Types[tc.Args[1]]; ok && tv.Value != nil && tv.Value.Kind() == constant.String {
+			set := map[rune]bool{}
+			for _, r := range constant.StringVal(tv.Value) {
+				set[r] = true
+			}
+			okSet = len(set) == 4 && set[' '] && set['\t'] && set['\r'] && set['\n']
+		}
+	default:
+		return "", false, true
+	}
+	return side, okSet, true
+}
 
 // trimMeasure recognises the length of a white-space run at one end of a string, written through the
 // helpers leftTrimLength/rightTrimLength or inline; it returns the side and the normal form of the string.
